@@ -1858,3 +1858,49 @@ def ladder_reassign_findings(seed):
                         {'detail': {'Tmax_prior': tmax, 'ladder': lad, 'levels': lev}}))
             break
     return out, stats
+
+
+def tall_ladder_rows_findings(seed, ntemps=140, iterations=3):
+    """C09 on a ladder far taller than any other case uses (the swap history has to hold level numbers up
+    to ntemps - 1): every recorded row is a permutation of 0..ntemps-1 and equals the index the sweep used,
+    at chain and at sampler level; the acceptance rows are ntemps - 1 probabilities."""
+    from epsie.samplers import ParallelTemperedSampler
+    from epsie.proposals import Normal
+    rng = random.Random(seed * 977 + 5)
+    out = []
+    betas = numpy.array([1.0] + [float(0.97 ** j) for j in range(1, ntemps)])
+
+    def model(x):
+        return -0.5 * x * x, 0.0
+    stats = {'ntemps': ntemps, 'sweeps': 0}
+    with SweepCapture() as cap:
+        smp = ParallelTemperedSampler(['x'], model, 1, betas=betas, swap_interval=1, proposals=[Normal(['x'])],
+                                      seed=rng.randrange(1, 10 ** 6))
+        smp.start_position = {'x': numpy.array([[rng.uniform(-1, 1)] for _ in range(ntemps)])}
+        smp.run(iterations)
+        ch = smp.chains[0]
+        ts, ta = ch.temperature_swaps, ch.temperature_acceptance
+        sts = smp.temperature_swaps
+        for r, e in enumerate(cap.sweeps):
+            stats['sweeps'] += 1
+            idx = e['stored'].get('swap_index', (None, None))[1]
+            row = [int(v) for v in ts[:, r]]
+            if sorted(row) != list(range(ntemps)):
+                out.append(('tall-ladder-row-not-a-permutation',
+                            'ladder of %d temperatures: row %d of temperature_swaps is not a permutation of the levels '
+                            '(min %d, max %d)' % (ntemps, r, min(row), max(row)), {'detail': {'ntemps': ntemps, 'row': r}}))
+                break
+            if idx is not None and row != [int(v) for v in idx]:
+                out.append(('tall-ladder-row-differs-from-sweep', 'ladder of %d temperatures: row %d of temperature_swaps '
+                            'is not the swap index of that sweep' % (ntemps, r), {'detail': {'ntemps': ntemps, 'row': r}}))
+                break
+            if [int(v) for v in numpy.asarray(sts)[:, 0, r]] != row:
+                out.append(('tall-ladder-sampler-row-differs', 'ladder of %d temperatures: the sampler-level swap history '
+                            'differs from the chain\'s in row %d' % (ntemps, r), {'detail': {'ntemps': ntemps, 'row': r}}))
+                break
+            arow = [float(v) for v in ta[:, r]]
+            if len(arow) != ntemps - 1 or not all(0.0 <= a <= 1.0 for a in arow):
+                out.append(('tall-ladder-acceptance-row', 'ladder of %d temperatures: row %d of temperature_acceptance is '
+                            'not %d probabilities' % (ntemps, r, ntemps - 1), {'detail': {'ntemps': ntemps, 'row': r}}))
+                break
+    return out, stats
